@@ -8,8 +8,7 @@ warnings.simplefilter("ignore")
 REPO = os.environ.get("VERIF_REPO", "/repo")
 sys.path.insert(0, os.path.dirname(os.path.dirname(os.path.abspath(__file__))))
 sys.path.insert(0, REPO + "/src")
-if REPO != "/repo":
-    sys.path.insert(1, "/repo")   # the tests package (stubs) is not part of a scratch copy
+sys.path.insert(1, REPO if os.path.isdir(REPO + "/tests") else "/repo")   # the tests package (terminal stubs); a scratch copy has only src/
 key, model, meta = sys.argv[1], json.loads(sys.argv[2]), json.loads(sys.argv[3]) if len(sys.argv) > 3 else {}
 modname, fname = key.split(".", 1)
 try:
